@@ -103,7 +103,7 @@ def prove_and_extract(ctx):
         proof['errors'] = own
         if not own and proof['discharged'] == proof['obligations'] and proof['obligations'] > 0:
             proof['ok'] = True
-    rc, o, e = vlib.sh('make -C %s _build/driver_autoremove' % os.path.join(vlib.ROOT, 'ocaml'), timeout=600)
+    rc, o, e = vlib.sh('make -C %s _build/driver_autoremove' % vlib.OCAML, timeout=600)
     if rc != 0 or not os.path.exists(os.path.join(vlib.DRIVERS, 'driver_autoremove')):
         raise RuntimeError('model driver driver_autoremove does not build: %s' % (e or o)[-800:])
     return proof
